@@ -315,6 +315,31 @@ Section Sort.
       end
     else Ok (h, t).
 
+  (** first half of the body of cstl_dlist_sort: declare and initialise the
+      two local list objects [l0], [l1], cut [l] into halves, hand the
+      halves to them, re-initialise [l] *)
+  Definition sort_split (h : heap) (l l0 l1 : addr) : res heap :=
+    let h := halloc (halloc h l0) l1 in
+    h <- init h l0 ;;
+    h <- init h l1 ;;
+    '(h, t) <- mid_loop (N.to_nat (rsz h l)) h l l0 l ;;
+    ln <- rnx h l ;; h <- wnx h l0 ln ;;              (* _l[0].h.n = l->h.n *)
+    h <- wpv h l0 t ;;                                (* _l[0].h.p = t *)
+    tn <- rnx h t ;; h <- wnx h l1 tn ;;              (* _l[1].h.n = t->n *)
+    lp <- rpv h l ;; h <- wpv h l1 lp ;;              (* _l[1].h.p = l->h.p *)
+    p0 <- rpv h l0 ;; h <- wnx h p0 l0 ;;             (* _l[0].h.p->n = &_l[0].h *)
+    n0 <- rnx h l0 ;; h <- wpv h n0 l0 ;;             (* _l[0].h.n->p = &_l[0].h *)
+    p1 <- rpv h l1 ;; h <- wnx h p1 l1 ;;
+    n1 <- rnx h l1 ;; h <- wpv h n1 l1 ;;
+    let h := wsz h l1 (rsz h l - rsz h l0)%N in       (* _l[1].size = l->size - _l[0].size *)
+    init h l.
+
+  (** second half: merge, append the rest, leave the scope of [l0], [l1] *)
+  Definition sort_join (h : heap) (l l0 l1 : addr) : res heap :=
+    h <- merge_loop key (N.to_nat (rsz h l0 + rsz h l1)) h l l0 l1 ;;
+    h <- (if (0 <? rsz h l0)%N then concat h l l0 else concat h l l1) ;;
+    Ok (hfree (hfree h l0) l1).
+
   (** cstl_dlist_sort.  The two stack-local list objects of the call at
       recursion depth [depth] live at [taddr (2*depth)], [taddr (2*depth+1)];
       they exist from the declaration to the return. *)
@@ -325,25 +350,10 @@ Section Sort.
       | S f =>
         let l0 := taddr (2 * depth) in
         let l1 := taddr (2 * depth + 1) in
-        let h := halloc (halloc h l0) l1 in
-        h <- init h l0 ;;
-        h <- init h l1 ;;
-        '(h, t) <- mid_loop (N.to_nat (rsz h l)) h l l0 l ;;
-        ln <- rnx h l ;; h <- wnx h l0 ln ;;              (* _l[0].h.n = l->h.n *)
-        h <- wpv h l0 t ;;                                (* _l[0].h.p = t *)
-        tn <- rnx h t ;; h <- wnx h l1 tn ;;              (* _l[1].h.n = t->n *)
-        lp <- rpv h l ;; h <- wpv h l1 lp ;;              (* _l[1].h.p = l->h.p *)
-        p0 <- rpv h l0 ;; h <- wnx h p0 l0 ;;             (* _l[0].h.p->n = &_l[0].h *)
-        n0 <- rnx h l0 ;; h <- wpv h n0 l0 ;;             (* _l[0].h.n->p = &_l[0].h *)
-        p1 <- rpv h l1 ;; h <- wnx h p1 l1 ;;
-        n1 <- rnx h l1 ;; h <- wpv h n1 l1 ;;
-        let h := wsz h l1 (rsz h l - rsz h l0)%N in       (* _l[1].size = l->size - _l[0].size *)
-        h <- init h l ;;
+        h <- sort_split h l l0 l1 ;;
         h <- sort f (S depth) h l0 ;;
         h <- sort f (S depth) h l1 ;;
-        h <- merge_loop key (N.to_nat (rsz h l0 + rsz h l1)) h l l0 l1 ;;
-        h <- (if (0 <? rsz h l0)%N then concat h l l0 else concat h l l1) ;;
-        Ok (hfree (hfree h l0) l1)
+        sort_join h l l0 l1
       end
     else Ok h.
 End Sort.
